@@ -192,6 +192,9 @@ type scenario struct {
 	nt      int
 	weights map[string]int
 	focus   bool
+	byFam   map[string][]int
+	maxOps  int
+	epochs  int
 }
 
 func (sc *scenario) release() { sc.p.reg.release() }
@@ -319,25 +322,74 @@ func makeScenario(src *vs.Source, tier string, idx int64) (*scenario, error) {
 		byFam = res
 		sc.focus = true
 	}
-	hammer := m.Intn(6, "hammer") == 5 // every task hammers the same operation
+	sc.byFam, sc.maxOps = byFam, maxOps
+	// epochs: at an epoch boundary all tasks join and some results of the
+	// epoch are published as shared operands of the next one (pipelines:
+	// decode -> set operation -> encode, shared downstream)
+	sc.epochs = []int{1, 1, 1, 2, 2, 3}[m.Intn(6, "epochs")]
+	sc.genScripts(src, "", m.Intn(6, "hammer") == 5)
+	return sc, nil
+}
+
+// genScripts draws one script per task from the streams "s<i><suffix>".
+func (sc *scenario) genScripts(src *vs.Source, suffix string, hammer bool) {
+	p := sc.p
 	var shared opSpec
-	if hammer {
-		shared = genOp(src.Stream("s-shared"), p, byFam, families, sc.weights)
+	if hammer { // every task hammers the same operation
+		shared = genOp(src.Stream("s-shared"+suffix), p, sc.byFam, families, sc.weights)
 	}
+	sc.scripts = nil
 	for t := 0; t < sc.nt; t++ {
-		ss := src.Stream(fmt.Sprintf("s%d", t))
-		n := 1 + ss.Intn(maxOps, "nops")
+		ss := src.Stream(fmt.Sprintf("s%d%s", t, suffix))
+		n := 1 + ss.Intn(sc.maxOps, "nops")
 		var script []opSpec
 		for i := 0; i < n; i++ {
 			if hammer && ss.Intn(2, "hammer") == 0 {
 				script = append(script, shared)
 			} else {
-				script = append(script, genOp(ss, p, byFam, families, sc.weights))
+				script = append(script, genOp(ss, p, sc.byFam, families, sc.weights))
 			}
 		}
 		sc.scripts = append(sc.scripts, script)
 	}
-	return sc, nil
+}
+
+// publish makes up to three geometry results of the finished epoch shared
+// operands of the next one and points the scripts at them.
+func (sc *scenario) publish(ref [][]opResult) int {
+	p := sc.p
+	var fresh []int
+	for _, rs := range ref {
+		for _, r := range rs {
+			for _, g := range r.Geoms {
+				if len(fresh) >= 3 {
+					break
+				}
+				if g.IsEmpty() || g.DumpCoordinates().Length() > 80 || g.Validate() != nil {
+					continue
+				}
+				d := digestOf(g)
+				dup := false
+				for _, have := range p.pubG {
+					if have == d {
+						dup = true
+					}
+				}
+				if dup {
+					continue
+				}
+				fresh = append(fresh, len(p.geoms))
+				p.geoms = append(p.geoms, g)
+				p.pubG = append(p.pubG, d)
+				p.envs = append(p.envs, g.Envelope())
+				p.pubE = append(p.pubE, digestOf(g.Envelope()))
+			}
+		}
+	}
+	if len(fresh) > 0 {
+		p.focus = append(fresh, 0)
+	}
+	return len(fresh)
 }
 
 func opString(op *opSpec) string {
@@ -413,250 +465,271 @@ func (e *engine) Run(src *vs.Source, tier string, idx int64) (res *simkit.RunRes
 	}
 	res.Stats["frozen_region_overflow_allocs"] += int64(0)
 
-	// ---- R1: every call alone, canonical order, single task
-	ref := make([][]opResult, sc.nt)
-	refSteps := make([][]int64, sc.nt)
-	skip := make([][]bool, sc.nt)
-	for t, script := range sc.scripts {
-		skip[t] = make([]bool, len(script))
-		refSteps[t] = make([]int64, len(script))
-		for i := range script {
-			op := &script[i]
-			var r opResult
-			markOp(op)
-			steps, _, pv, stack := vs.Solo(opBudget, func() { r = execOp(op, p, op.Scribble) })
-			res.Stats["logical_steps"] += steps
-			if pv != nil {
-				res.Violations = []simkit.Violation{{Class: "machinery", Sig: "machinery/execOp", Detail: fmt.Sprintf("%v\n%s", pv, stack)}}
-				return res
+	var ref0, ref0Prev [][]opResult
+	var skip0 [][]bool
+	var scripts0 [][]opSpec
+	var lastSim *vs.Sim
+	for epoch := 0; epoch < sc.epochs && len(viols) == 0; epoch++ {
+		if epoch > 0 {
+			if sc.publish(ref0Prev) == 0 {
+				break
 			}
-			ref[t] = append(ref[t], r)
-			refSteps[t][i] = steps
-			name := catalogue[op.Entry].name
-			if r.Fault != "" {
-				fail("frozen-store", name, frameOf(r.Fault), "library stored into a shared operand's coordinate memory (reference phase): "+opString(op)+"\n"+clipS(r.Fault, 2500))
-			}
-			if r.Budget {
-				// too heavy (or non-terminating) even alone: that is not C10's
-				// business (same behaviour every time); the call is left out.
-				skip[t][i] = true
-				res.Stats["ops_skipped_over_budget_alone"]++
-			}
-			if strings.HasPrefix(r.Digest, "NOT-RETAINED") {
-				fail("result-not-retained", name, "", opString(op)+": "+r.Digest)
-			}
+			res.Stats["epochs_with_published_results"]++
+			sc.genScripts(src, fmt.Sprintf("e%d", epoch), false)
 		}
-	}
-	// ---- R1': the same calls again, in reverse order, same process: "calling
-	// the same operation again with the same arguments returns a bit-identical
-	// result" must not depend on what was called in between.
-	for t := len(sc.scripts) - 1; t >= 0 && len(viols) == 0; t-- {
-		for i := len(sc.scripts[t]) - 1; i >= 0; i-- {
-			op := &sc.scripts[t][i]
-			if skip[t][i] || ref[t][i].Fault != "" {
-				continue
-			}
-			var r opResult
-			markOp(op)
-			steps, _, pv, stack := vs.Solo(opBudget, func() { r = execOp(op, p, op.Scribble) })
-			res.Stats["logical_steps"] += steps
-			res.Stats["repeat_executions"]++
-			if pv != nil {
-				res.Violations = []simkit.Violation{{Class: "machinery", Sig: "machinery/execOp", Detail: fmt.Sprintf("%v\n%s", pv, stack)}}
-				return res
-			}
-			if r.Digest != ref[t][i].Digest {
-				fail("result-differs", catalogue[op.Entry].name, "repeat", fmt.Sprintf("%s executed twice, alone, in one process (other calls in between): first\n  %s\nthen\n  %s", opString(op), clipAround(ref[t][i].Digest, r.Digest), clipAround(r.Digest, ref[t][i].Digest)))
-			}
-		}
-	}
-	if d := p.verify(); d != "" {
-		fail("operand-changed", "reference-phase", "", d)
-	}
-	if len(viols) > 0 {
-		res.Violations = viols
-		res.Sample = sc.sample(nil)
-		return res
-	}
-
-	// ---- concurrent phase
-	sim := &vs.Sim{Sched: src.Stream("sched"), MaxSwitchLog: 256}
-	if raceBuild {
-		sim.Plan = vs.NewSwarmPlan(sim.Sched, [5]int{0, 1, 0, 1, 6}, 12)
-	} else {
-		sim.Plan = vs.NewSwarmPlan(sim.Sched, [5]int{1, 6, 2, 1, 1}, 15)
-	}
-	if sim.Sched.Intn(3, "gc?") == 2 {
-		sim.GCOdds = 6
-		sim.GCMax = 3
-	}
-	logs := make([]*taskLog, sc.nt)
-	var switchViol string
-	inflight := make([]string, sc.nt) // family of the op each task is executing ("" = none)
-	sim.OnSwitch = func(sm *vs.Sim, from *vs.Task) {
-		if sm.NSwitch <= 48 || sm.NSwitch%16 == 0 {
-			if switchViol == "" {
-				if d := p.verify(); d != "" {
-					site, _ := 0, 0
-					if n := len(sm.Switches); n > 0 {
-						site = sm.Switches[n-1].Site
-					}
-					switchViol = fmt.Sprintf("at context switch %d (task %d yielded at %s, executing %s): %s", sm.NSwitch, from.ID, siteName(site), getInflight(inflight, from.ID), d)
-				}
-			}
-		}
-	}
-	policyMode := sim.Sched.Intn(4, "maporder/style")
-	for t := 0; t < sc.nt; t++ {
-		t := t
-		ts := src.Stream(fmt.Sprintf("t%d", t))
-		logs[t] = &taskLog{}
-		script := sc.scripts[t]
-		task := sim.NewTask(ts, func(tk *vs.Task) {
-			debug.SetPanicOnFault(true)
+		// ---- R1: every call alone, canonical order, single task
+		ref := make([][]opResult, sc.nt)
+		refSteps := make([][]int64, sc.nt)
+		skip := make([][]bool, sc.nt)
+		for t, script := range sc.scripts {
+			skip[t] = make([]bool, len(script))
+			refSteps[t] = make([]int64, len(script))
 			for i := range script {
 				op := &script[i]
-				if skip[t][i] {
-					logs[t].res = append(logs[t].res, ref[t][i])
+				var r opResult
+				markOp(op)
+				steps, _, pv, stack := vs.Solo(opBudget, func() { r = execOp(op, p, op.Scribble) })
+				res.Stats["logical_steps"] += steps
+				if pv != nil {
+					res.Violations = []simkit.Violation{{Class: "machinery", Sig: "machinery/execOp", Detail: fmt.Sprintf("%v\n%s", pv, stack)}}
+					return res
+				}
+				ref[t] = append(ref[t], r)
+				refSteps[t][i] = steps
+				name := catalogue[op.Entry].name
+				if r.Fault != "" {
+					fail("frozen-store", name, frameOf(r.Fault), "library stored into a shared operand's coordinate memory (reference phase): "+opString(op)+"\n"+clipS(r.Fault, 2500))
+				}
+				if r.Budget {
+					// too heavy (or non-terminating) even alone: that is not C10's
+					// business (same behaviour every time); the call is left out.
+					skip[t][i] = true
+					res.Stats["ops_skipped_over_budget_alone"]++
+				}
+				if strings.HasPrefix(r.Digest, "NOT-RETAINED") {
+					fail("result-not-retained", name, "", opString(op)+": "+r.Digest)
+				}
+			}
+		}
+		// ---- R1': the same calls again, in reverse order, same process: "calling
+		// the same operation again with the same arguments returns a bit-identical
+		// result" must not depend on what was called in between.
+		for t := len(sc.scripts) - 1; t >= 0 && len(viols) == 0; t-- {
+			for i := len(sc.scripts[t]) - 1; i >= 0; i-- {
+				op := &sc.scripts[t][i]
+				if skip[t][i] || ref[t][i].Fault != "" {
 					continue
 				}
-				tk.ResetTags()
-				tk.SetBudget(10*refSteps[t][i] + 200000)
-				setInflight(inflight, t, catalogue[op.Entry].family+":"+catalogue[op.Entry].name)
+				var r opResult
 				markOp(op)
-				r := execOp(op, p, op.Scribble)
-				tk.SetBudget(1 << 40)
-				setInflight(inflight, t, "")
-				logs[t].res = append(logs[t].res, r)
-				vs.OpBoundary(siteOpBound)
-			}
-		})
-		switch policyMode {
-		case 0:
-			task.Policy = vs.MapPolicy{Canon: 1}
-		case 1:
-			task.Policy = vs.MapPolicy{Canon: 2, Rev: 1, Rot: 1, Perm: 2}
-		case 2:
-			task.Policy = vs.MapPolicy{Rev: 1, Perm: 3}
-		default:
-			task.Policy = vs.MapPolicy{Canon: 8, Rev: 1, Rot: 1, Perm: 1}
-		}
-	}
-	if err := sim.Run(); err != nil {
-		res.Violations = []simkit.Violation{{Class: "machinery", Sig: "machinery/task-panic", Detail: err.Error()}}
-		return res
-	}
-	// ---- oracles over the recorded history
-	var noncanon, rangeCalls, untagged int64
-	mapHash := uint64(1469598103934665603)
-	for t, tk := range sim.Tasks {
-		res.Stats["logical_steps"] += tk.Steps()
-		noncanon += tk.NonCanon
-		rangeCalls += tk.RangeCalls
-		untagged += tk.Untagged
-		var ids []int
-		for id := range tk.SiteNonCan {
-			ids = append(ids, id)
-		}
-		sort.Ints(ids)
-		for _, id := range ids {
-			res.Stats[fmt.Sprintf("probe/noncanonical_order_at_site_%s", siteName(id))] += tk.SiteNonCan[id]
-			mapHash = (mapHash ^ uint64(id+1)*uint64(tk.SiteNonCan[id]+7) ^ uint64(t)<<40) * 1099511628211
-		}
-		for _, e := range tk.Stream.Rec {
-			if strings.HasPrefix(e.L, "map/") {
-				mapHash = (mapHash ^ e.V ^ e.N<<32) * 1099511628211
-			}
-		}
-		for i, r := range logs[t].res {
-			op := &sc.scripts[t][i]
-			ent := catalogue[op.Entry]
-			res.Stats["operations"]++
-			res.Stats["ops_family/"+ent.family]++
-			res.Stats["callbacks"] += r.CBs
-			res.Stats["fault/callback-abort"] += r.Aborts
-			if r.Retained {
-				res.Stats["fault/buffer-reuse"]++
-			}
-			if r.Fault != "" {
-				fail("frozen-store", ent.name, frameOf(r.Fault), "library stored into a shared operand's coordinate memory: "+opString(op)+"\n"+clipS(r.Fault, 2500))
-				continue
-			}
-			if skip[t][i] {
-				continue
-			}
-			if r.Budget {
-				fail("step-budget-exceeded", ent.name, "", fmt.Sprintf("operation took %d yield points alone but passed more than 10x that (+2e5) under simulation: %s", refSteps[t][i], opString(op)))
-				continue
-			}
-			if strings.HasPrefix(r.Digest, "NOT-RETAINED") {
-				fail("result-not-retained", ent.name, "", opString(op)+": "+r.Digest)
-				continue
-			}
-			if r.Digest != ref[t][i].Digest {
-				fail("result-differs", ent.name, "", fmt.Sprintf("task %d op %d %s: under simulation returned\n  %s\nalone under canonical order it returned\n  %s\n(first difference at byte %d)", t, i, opString(op), clipAround(r.Digest, ref[t][i].Digest), clipAround(ref[t][i].Digest, r.Digest), firstDiff(r.Digest, ref[t][i].Digest)))
-			}
-			// end-of-run retention: values returned earlier still have their digests
-			if r.Retained {
-				var sb strings.Builder
-				for _, rv := range r.Retain {
-					digest(&sb, rv, 0)
-					sb.WriteByte(';')
+				steps, _, pv, stack := vs.Solo(opBudget, func() { r = execOp(op, p, op.Scribble) })
+				res.Stats["logical_steps"] += steps
+				res.Stats["repeat_executions"]++
+				if pv != nil {
+					res.Violations = []simkit.Violation{{Class: "machinery", Sig: "machinery/execOp", Detail: fmt.Sprintf("%v\n%s", pv, stack)}}
+					return res
 				}
-				if sb.String() != r.RetainDigest {
-					fail("result-not-retained", ent.name, "end-of-run", opString(op)+": a value returned earlier changed later: "+clipS(r.RetainDigest, 300)+" => "+clipS(sb.String(), 300))
+				if r.Digest != ref[t][i].Digest {
+					fail("result-differs", catalogue[op.Entry].name, "repeat", fmt.Sprintf("%s executed twice, alone, in one process (other calls in between): first\n  %s\nthen\n  %s", opString(op), clipAround(ref[t][i].Digest, r.Digest), clipAround(r.Digest, ref[t][i].Digest)))
 				}
 			}
 		}
-		if len(logs[t].res) != len(sc.scripts[t]) {
-			fail("machinery", "script", "", fmt.Sprintf("task %d executed %d of %d ops", t, len(logs[t].res), len(sc.scripts[t])))
+		if d := p.verify(); d != "" {
+			fail("operand-changed", "reference-phase", "", d)
 		}
-	}
-	if switchViol != "" {
-		fail("operand-changed", "switch-time", "", switchViol)
-	}
-	if d := p.verify(); d != "" {
-		fail("operand-changed", "end-of-run", "", d)
-	}
-	// ---- stats, probes
-	midOp := int64(0)
-	for _, sw := range sim.Switches {
-		c := siteClass(sw.Site)
-		if c != "between-ops" && c != "task-end" {
-			midOp++
-			res.Stats["probe/switch_inside_"+c]++
+		if len(viols) > 0 {
+			res.Violations = viols
+			res.Sample = sc.sample(nil)
+			return res
 		}
-	}
-	res.Stats["context_switches"] += sim.NSwitch
-	res.Stats["switches_inside_operations_logged"] += midOp
-	res.Stats["fault/forced-gc"] += sim.Forced
-	res.Stats["lock_wait_detours"] += sim.LockDetours
-	res.Stats["fault/noncanonical-map-order"] += noncanon
-	res.Stats["map_range_invocations"] += rangeCalls
-	res.Stats["untagged_pointer_keys"] += untagged
-	res.Stats["tasks"] += int64(sc.nt)
-	res.Stats[fmt.Sprintf("plan_mode/%d", sim.Plan.(*vs.SwarmPlan).Mode)]++
-	if int64(sc.nt) > res.Max["tasks_in_one_run"] {
-		res.Max["tasks_in_one_run"] = int64(sc.nt)
-	}
-	if untagged > 0 {
-		res.Stats["order_uncontrolled_runs"]++
-	}
-	if midOp > 0 || noncanon > 0 {
-		var fams []string
-		for _, script := range sc.scripts {
-			for _, op := range script {
-				fams = append(fams, catalogue[op.Entry].family)
-			}
-		}
-		sort.Strings(fams)
-		res.Tuples = []string{fmt.Sprintf("%s|%x|%x", strings.Join(fams, ","), sim.Hash, mapHash)}
-		res.Hashes = []uint64{sim.Hash}
-	}
 
+		// ---- concurrent phase
+		sim := &vs.Sim{Sched: src.Stream("sched"), MaxSwitchLog: 256}
+		if raceBuild {
+			sim.Plan = vs.NewSwarmPlan(sim.Sched, [5]int{0, 1, 0, 1, 6}, 12)
+		} else {
+			sim.Plan = vs.NewSwarmPlan(sim.Sched, [5]int{1, 6, 2, 1, 1}, 15)
+		}
+		if sim.Sched.Intn(3, "gc?") == 2 {
+			sim.GCOdds = 6
+			sim.GCMax = 3
+		}
+		logs := make([]*taskLog, sc.nt)
+		var switchViol string
+		inflight := make([]string, sc.nt) // family of the op each task is executing ("" = none)
+		sim.OnSwitch = func(sm *vs.Sim, from *vs.Task) {
+			if sm.NSwitch <= 48 || sm.NSwitch%16 == 0 {
+				if switchViol == "" {
+					if d := p.verify(); d != "" {
+						site, _ := 0, 0
+						if n := len(sm.Switches); n > 0 {
+							site = sm.Switches[n-1].Site
+						}
+						switchViol = fmt.Sprintf("at context switch %d (task %d yielded at %s, executing %s): %s", sm.NSwitch, from.ID, siteName(site), getInflight(inflight, from.ID), d)
+					}
+				}
+			}
+		}
+		policyMode := sim.Sched.Intn(4, "maporder/style")
+		for t := 0; t < sc.nt; t++ {
+			t := t
+			ts := src.Stream(fmt.Sprintf("t%d", t))
+			logs[t] = &taskLog{}
+			script := sc.scripts[t]
+			task := sim.NewTask(ts, func(tk *vs.Task) {
+				debug.SetPanicOnFault(true)
+				for i := range script {
+					op := &script[i]
+					if skip[t][i] {
+						logs[t].res = append(logs[t].res, ref[t][i])
+						continue
+					}
+					tk.ResetTags()
+					tk.SetBudget(10*refSteps[t][i] + 200000)
+					setInflight(inflight, t, catalogue[op.Entry].family+":"+catalogue[op.Entry].name)
+					markOp(op)
+					r := execOp(op, p, op.Scribble)
+					tk.SetBudget(1 << 40)
+					setInflight(inflight, t, "")
+					logs[t].res = append(logs[t].res, r)
+					vs.OpBoundary(siteOpBound)
+				}
+			})
+			switch policyMode {
+			case 0:
+				task.Policy = vs.MapPolicy{Canon: 1}
+			case 1:
+				task.Policy = vs.MapPolicy{Canon: 2, Rev: 1, Rot: 1, Perm: 2}
+			case 2:
+				task.Policy = vs.MapPolicy{Rev: 1, Perm: 3}
+			default:
+				task.Policy = vs.MapPolicy{Canon: 8, Rev: 1, Rot: 1, Perm: 1}
+			}
+		}
+		if err := sim.Run(); err != nil {
+			res.Violations = []simkit.Violation{{Class: "machinery", Sig: "machinery/task-panic", Detail: err.Error()}}
+			return res
+		}
+		// ---- oracles over the recorded history
+		var noncanon, rangeCalls, untagged int64
+		mapHash := uint64(1469598103934665603)
+		for t, tk := range sim.Tasks {
+			res.Stats["logical_steps"] += tk.Steps()
+			noncanon += tk.NonCanon
+			rangeCalls += tk.RangeCalls
+			untagged += tk.Untagged
+			var ids []int
+			for id := range tk.SiteNonCan {
+				ids = append(ids, id)
+			}
+			sort.Ints(ids)
+			for _, id := range ids {
+				res.Stats[fmt.Sprintf("probe/noncanonical_order_at_site_%s", siteName(id))] += tk.SiteNonCan[id]
+				mapHash = (mapHash ^ uint64(id+1)*uint64(tk.SiteNonCan[id]+7) ^ uint64(t)<<40) * 1099511628211
+			}
+			for _, e := range tk.Stream.Rec {
+				if strings.HasPrefix(e.L, "map/") {
+					mapHash = (mapHash ^ e.V ^ e.N<<32) * 1099511628211
+				}
+			}
+			for i, r := range logs[t].res {
+				op := &sc.scripts[t][i]
+				ent := catalogue[op.Entry]
+				res.Stats["operations"]++
+				res.Stats["ops_family/"+ent.family]++
+				res.Stats["callbacks"] += r.CBs
+				res.Stats["fault/callback-abort"] += r.Aborts
+				if r.Retained {
+					res.Stats["fault/buffer-reuse"]++
+				}
+				if r.Fault != "" {
+					fail("frozen-store", ent.name, frameOf(r.Fault), "library stored into a shared operand's coordinate memory: "+opString(op)+"\n"+clipS(r.Fault, 2500))
+					continue
+				}
+				if skip[t][i] {
+					continue
+				}
+				if r.Budget {
+					fail("step-budget-exceeded", ent.name, "", fmt.Sprintf("operation took %d yield points alone but passed more than 10x that (+2e5) under simulation: %s", refSteps[t][i], opString(op)))
+					continue
+				}
+				if strings.HasPrefix(r.Digest, "NOT-RETAINED") {
+					fail("result-not-retained", ent.name, "", opString(op)+": "+r.Digest)
+					continue
+				}
+				if r.Digest != ref[t][i].Digest {
+					fail("result-differs", ent.name, "", fmt.Sprintf("task %d op %d %s: under simulation returned\n  %s\nalone under canonical order it returned\n  %s\n(first difference at byte %d)", t, i, opString(op), clipAround(r.Digest, ref[t][i].Digest), clipAround(ref[t][i].Digest, r.Digest), firstDiff(r.Digest, ref[t][i].Digest)))
+				}
+				// end-of-run retention: values returned earlier still have their digests
+				if r.Retained {
+					var sb strings.Builder
+					for _, rv := range r.Retain {
+						digest(&sb, rv, 0)
+						sb.WriteByte(';')
+					}
+					if sb.String() != r.RetainDigest {
+						fail("result-not-retained", ent.name, "end-of-run", opString(op)+": a value returned earlier changed later: "+clipS(r.RetainDigest, 300)+" => "+clipS(sb.String(), 300))
+					}
+				}
+			}
+			if len(logs[t].res) != len(sc.scripts[t]) {
+				fail("machinery", "script", "", fmt.Sprintf("task %d executed %d of %d ops", t, len(logs[t].res), len(sc.scripts[t])))
+			}
+		}
+		if switchViol != "" {
+			fail("operand-changed", "switch-time", "", switchViol)
+		}
+		if d := p.verify(); d != "" {
+			fail("operand-changed", "end-of-run", "", d)
+		}
+		// ---- stats, probes
+		midOp := int64(0)
+		for _, sw := range sim.Switches {
+			c := siteClass(sw.Site)
+			if c != "between-ops" && c != "task-end" {
+				midOp++
+				res.Stats["probe/switch_inside_"+c]++
+			}
+		}
+		res.Stats["context_switches"] += sim.NSwitch
+		res.Stats["switches_inside_operations_logged"] += midOp
+		res.Stats["fault/forced-gc"] += sim.Forced
+		res.Stats["lock_wait_detours"] += sim.LockDetours
+		res.Stats["fault/noncanonical-map-order"] += noncanon
+		res.Stats["map_range_invocations"] += rangeCalls
+		res.Stats["untagged_pointer_keys"] += untagged
+		res.Stats["tasks"] += int64(sc.nt)
+		res.Stats[fmt.Sprintf("plan_mode/%d", sim.Plan.(*vs.SwarmPlan).Mode)]++
+		if int64(sc.nt) > res.Max["tasks_in_one_run"] {
+			res.Max["tasks_in_one_run"] = int64(sc.nt)
+		}
+		if untagged > 0 {
+			res.Stats["order_uncontrolled_runs"]++
+		}
+		if midOp > 0 || noncanon > 0 {
+			var fams []string
+			for _, script := range sc.scripts {
+				for _, op := range script {
+					fams = append(fams, catalogue[op.Entry].family)
+				}
+			}
+			sort.Strings(fams)
+			res.Tuples = []string{fmt.Sprintf("%s|%x|%x", strings.Join(fams, ","), sim.Hash, mapHash)}
+			res.Hashes = []uint64{sim.Hash}
+		}
+
+		if epoch == 0 {
+			ref0, skip0, scripts0 = ref, skip, sc.scripts
+		}
+		ref0Prev = ref
+		lastSim = sim
+	}
+	if scripts0 != nil {
+		sc.scripts = scripts0
+	}
 	// ---- R2: the un-instrumented library in another process
-	if !raceBuild && len(viols) == 0 && idx%3 == 0 {
-		if msg, class := crossCheck(src, sc, ref, skip, tier, idx); msg != "" {
+	if !raceBuild && len(viols) == 0 && idx%3 == 0 && ref0 != nil {
+		if msg, class := crossCheck(src, sc, ref0, skip0, tier, idx); msg != "" {
 			if class == "machinery" {
 				viols = append(viols, simkit.Violation{Class: "machinery", Sig: "machinery/instrumentation-diverges", Detail: msg})
 			} else {
@@ -665,7 +738,7 @@ func (e *engine) Run(src *vs.Source, tier string, idx int64) (res *simkit.RunRes
 		}
 		res.Stats["cross_process_reference_runs"]++
 	}
-	res.Sample = sc.sample(sim)
+	res.Sample = sc.sample(lastSim)
 	res.Violations = viols
 	return res
 }
@@ -785,7 +858,10 @@ type refResp struct {
 
 func scenarioDigest(sc *scenario) string {
 	var sb strings.Builder
-	for _, d := range sc.p.pubG {
+	for i, d := range sc.p.pubG {
+		if i >= sc.p.nOrig {
+			break // operands published by later epochs are not part of the generated scenario
+		}
 		sb.WriteString(d)
 		sb.WriteByte('\n')
 	}
